@@ -57,6 +57,10 @@ func c06Cases(tier string) []SchedCase {
 	add(`{t{kids{name} ints}}`, planOf("t.kids[0]", "null"))
 	add(`{t{req name kid{name}}}`, planOf("t.req", "error", "t.name", "error", "t.kid.name", "error"))
 	add(`{t{kidReq{id} name}}`, planOf("t.kidReq", "null", "t.name", "error"))
+	// a failure reported through graphql.AddError with a nil result, next to a failing sibling
+	add(`{t{kidReq{id} name}}`, planOf("t.kidReq", "adderr", "t.name", "error"))
+	add(`{tReq{kidReq{id} req name}}`, planOf("tReq.kidReq", "adderr", "tReq.req", "error"))
+	add(`{ts{kidReq{id}}}`, planOf("ts[0].kidReq", "adderr", "ts[1].kidReq", "adderr"))
 	// mirrored paths: an error at one alias, a silent null at the other
 	add(`{x:t{kidReq{id}} y:t{kidReq{id}}}`, planOf("x.kidReq", "error", "y.kidReq", "null"))
 	add(`{x:tReq{id} y:tReq{id}}`, planOf("x", "error", "y", "null"))
@@ -156,6 +160,10 @@ func c04Cases(tier string) []SchedCase {
 	add("", `{t{id ... @defer{req name}}}`, planOf("t.req", "error"), true)
 	add("", `{t{id ... @defer{req name}}}`, planOf("t.req", "panic"), true)
 	add("", `{ts{id ... @defer(label:"g"){kidReq{id}}}}`, planOf("ts[1].kidReq", "error"), true)
+	// the failing non-null field is NOT deferred, the same object also has a deferred fragment
+	add("", `{t{kidReq{id} ... @defer{name}}}`, planOf("t.kidReq", "error"), true)
+	add("", `{t{req ... @defer(label:"d"){name kid{id}}}}`, planOf("t.req", "panic"), true)
+	add("", `{ts{req ... @defer{name}}}`, planOf("ts[1].req", "error"), true)
 	// concurrent siblings and list element goroutines panicking together
 	add("", `{t{name req kid{name}}}`, planOf("t.name", "panic", "t.kid.name", "panic"), true)
 	add("", `{ts{name req}}`, planOf("ts[0].req", "panic", "ts[1].name", "panic"), true)
@@ -193,6 +201,11 @@ func (si *schedInst) Body() {
 	srv := handler.New(s.es)
 	si.rw = rig.NewRW()
 	body, _ := json.Marshal(map[string]any{"query": in.C.Op.Text, "variables": in.C.Op.Vars})
+	if si.sc.Transport == "post2" && strings.HasPrefix(in.C.Op.Text, "{") {
+		// a NAMED operation selected by operationName: whatever the transport keeps of this
+		// request would show in the next one, which sends neither
+		body, _ = json.Marshal(map[string]any{"query": "query Boom" + in.C.Op.Text, "operationName": "Boom", "variables": in.C.Op.Vars})
+	}
 	req := httptest.NewRequest("POST", "/query", bytes.NewReader(body))
 	req.Header.Set("Content-Type", "application/json")
 	switch si.sc.Transport {
@@ -392,6 +405,7 @@ func (si *schedInst) checkFaultScenario(x *explore.Exec) (string, string) {
 	}
 	// single-payload operations additionally match the reference exactly
 	if len(si.Resp) == 1 && si.Resp[0].HasNext == nil {
+		si.Inst.DeferredMayBeSkipped = strings.Contains(si.C.Op.Text, "@defer")
 		if sig, msg := si.Inst.CheckSemantics(x); sig != "" && !si.S.knownQuirk(sig) {
 			return sig, msg
 		}
